@@ -117,7 +117,36 @@ def run(chk):
     init = prog.method(pooled, "__init__")
     ctor = [n for n in walk_no_nested(init.node) if isinstance(n, ast.Call) and call_name(n).endswith("ObjectPool")]
     r4.floor("ObjectPool construction sites in PooledClient", len(ctor), 1)
-    reach = _client_closure(prog, ["__init__", "close"])
+    # the callbacks, resolved to the functions that run: a lambda, a method of PooledClient, `Client.close`, a function
+    from . import pooled as pooled_cb
+
+    _, constructions = pooled_cb.pool_constructions(prog)
+    roots = set()
+    for n, oc, ar in constructions:
+        for what, expr in (("obj_creator", oc), ("after_remove", ar)):
+            if expr is None:
+                if what == "obj_creator":
+                    r4.fail("PooledClient.__init__:obj_creator", "the pool is constructed without an obj_creator", fn=init, node=n)
+                continue
+            cb = pooled_cb.resolve_callback(prog, pooled, expr, init)
+            if cb is None:
+                r4.undecided("PooledClient.__init__:%s" % what, "the %s callback `%s` is not a lambda, method or function this analysis can follow" % (what, node_src(expr)))
+                continue
+            bodies = pooled_cb.callback_closure(prog, pooled, cb)
+            touching = [x for b in bodies for x in ast.walk(b) if (isinstance(x, ast.Attribute) and x.attr in ("client_pool", "get_and_release"))]
+            r4.expect(not touching, "%s callback `%s` (and the private methods it calls) never touches the pool" % (what, node_src(expr, 40)), "PooledClient.__init__:%s-touches-pool" % what, "the %s callback `%s` runs while the pool's non-reentrant lock is held and touches self.client_pool: it deadlocks on the lock it is called under" % (what, node_src(expr, 40)), fn=init, node=touching[0] if touching else n)
+            if cb.kind.startswith("unbound:") and cb.kind.split(":")[1].split(".")[0] == "Client":
+                roots.add(cb.kind.split(".")[-1])
+            for b in bodies:
+                for x in ast.walk(b):
+                    if isinstance(x, ast.Call):
+                        cn = call_name(x)
+                        if cn in ("self.client_class", "Client") or cn.endswith(".client_class"):
+                            roots.add("__init__")
+                        elif what == "after_remove" and isinstance(x.func, ast.Attribute) and isinstance(x.func.value, ast.Name) and cb.params and x.func.value.id == cb.params[0]:
+                            roots.add(x.func.attr)
+    r4.floor("Client methods the pool callbacks start (constructor, close)", len(roots), 2)
+    reach = _client_closure(prog, sorted(roots))
     bad = []
     for q in reach:
         f = prog.method("Client", q)
@@ -127,15 +156,7 @@ def run(chk):
     for f, n in bad:
         r4.fail("%s:callback-touches-pool" % f.qualname, "%s (reachable from the pool callbacks run under the lock) touches the pool" % f.qualname, fn=f, node=n)
     if not bad:
-        r4.ok("callbacks run under the lock (_create_client -> Client.__init__, after_remove -> Client.close; %d Client methods reachable) never touch the pool" % len(reach))
-    for n in ctor:
-        kw = {k.arg: k.value for k in n.keywords}
-        ar = kw.get("after_remove")
-        ok = isinstance(ar, ast.Lambda) and isinstance(ar.body, ast.Call) and isinstance(ar.body.func, ast.Attribute) and ar.body.func.attr == "close"
-        r4.expect(ok, "after_remove callback is `lambda client: client.close()`", "PooledClient.__init__:after_remove-callback", "after_remove callback `%s` is not a plain client.close()" % (node_src(ar) if ar is not None else None), fn=init, node=n)
-        oc = n.args[0] if n.args else kw.get("obj_creator")
-        ok = is_self_attr(oc, "_create_client")
-        r4.expect(ok, "obj_creator is self._create_client", "PooledClient.__init__:obj_creator", "obj_creator `%s` is not self._create_client" % (node_src(oc) if oc is not None else None), fn=init, node=n)
+        r4.ok("callbacks run under the lock (%s; %d Client methods reachable) never touch the pool" % (", ".join("Client." + q for q in sorted(roots)), len(reach)))
 
     # ---------------- R6 = C09.R8: the lock rules make each method's bookkeeping atomic; that the books stay right under
     # every *order* of those atomic steps is decided on sequential histories
@@ -145,16 +166,24 @@ def run(chk):
     poolhist.pool_histories(prog, r6, chk.tier)
 
     # ---------------- R5 bracket and non-escape
-    r5 = chk.rule("C08.R5", "every PooledClient method obtains its client through `with client_pool.get_and_release(...) as client` and the client does not escape")
+    r5 = chk.rule("C08.R5", "every PooledClient method obtains its client through `with client_pool.get_and_release(...) as client` (or checks it out and gives it back itself, and does not touch it afterwards) and the client does not escape")
     n_br = 0
     from . import pooled as pooled_an
 
+    holds = pooled_an.analyse_holds(prog)
     for name, runs in sorted(pooled_an.analyse(prog).items()):
         m = pooled.methods[name]
         raw = sorted({x for r in runs for x in r.state.get("#raw", ())})
+        if name in holds:
+            # a hand-made bracket (client_pool.get() ... release/destroy): for this property what counts is that the
+            # client is used by this call only while it is checked out (that it is given back on every exit is C09 / C10)
+            late = sorted({x for r in holds[name] for x in r.state.get("#late_use", ())})
+            for x in late:
+                r5.fail("PooledClient.%s:use-after-give-back" % name, "PooledClient.%s: %s - another thread may have been handed the same client by then" % (name, x), fn=m, node=m.node)
+            raw = [x for x in raw if x != "client_pool.get()"]
         esc = sorted({x for r in runs for x in r.state.get("#escapes", ())} | {"returned to the caller" for r in runs if r.kind == "ret" and r.value == pooled_an.PC})
         used = any(r.state.get("#calls", ()) for r in runs)
-        bracketed = all(r.state.get("#brackets", ()) for r in runs if r.state.get("#calls", ()))
+        bracketed = all(r.state.get("#brackets", ()) or (name in holds and "client_pool.get()" in r.state.get("#raw", ())) for r in runs if r.state.get("#calls", ()))
         for x in raw:
             r5.fail("PooledClient.%s:raw-%s" % (name, x.split(".")[1].rstrip("()")), "PooledClient.%s calls %s directly instead of the get_and_release bracket" % (name, x), fn=m, node=m.node)
         if esc:
@@ -194,6 +223,8 @@ def run(chk):
     for f in prog.all_functions():
         if f.cls is not None and f.cls.name in ("ObjectPool",):
             continue
+        if f.cls is not None and f.cls.name == "PooledClient" and (f.name in holds or f.name.startswith("_")):
+            continue  # a hand-made bracket, interpreted above (private helpers are interpreted in the methods that call them)
         for n in walk_no_nested(f.node):
             if isinstance(n, ast.Call) and isinstance(n.func, ast.Attribute) and n.func.attr in ("get",) and isinstance(n.func.value, ast.Attribute) and n.func.value.attr == "client_pool":
                 r5.fail("%s:client_pool.get" % f.qualname, "client_pool.get() is called outside get_and_release", fn=f, node=n)
